@@ -7,6 +7,7 @@ import (
 	"regexp"
 	"runtime"
 	"sort"
+	"strconv"
 	"strings"
 	"time"
 
@@ -61,6 +62,8 @@ func cmdRun(args []string) int {
 	solverKind := fs.String("solver", "z3", "z3|z3-new|cvc5")
 	solverMS := fs.Int("solver-ms", 20000, "per-query timeout")
 	verbose := fs.Bool("v", false, "verbose")
+	propName := fs.String("prop", "", "take merge / fmt_ints / hash_injective settings from harness/props/<prop>.json")
+	concrete := fs.String("concrete", "", "run ONE path in concrete mode with nd values k=v,k=v (unsigned decimal); prints outcome and observations")
 	fs.Parse(args)
 	setupEnv()
 	repo := envOr("VERIF_REPO", "/repo")
@@ -90,6 +93,19 @@ func cmdRun(args []string) int {
 	}
 	sort.Slice(hs, func(i, j int) bool { return hs[i].Name() < hs[j].Name() })
 	conf := sx.Config{NoIfConv: os.Getenv("VERIF_NOIFCONV") != "", Unwind: *unwind, MaxSteps: *steps, MaxPaths: *paths, MaxTime: *maxTime, SolverKind: *solverKind, SolverMS: *solverMS, BranchMS: 1500}
+	if *propName != "" {
+		props, err := loadProps(verif)
+		if err != nil || props[*propName] == nil {
+			fmt.Fprintln(os.Stderr, "cannot load props for", *propName, err)
+			return 2
+		}
+		pc := props[*propName]
+		conf.FmtInts, conf.HashInjective = pc.FmtInts, pc.HashInj
+		conf.Merge = map[string]bool{}
+		for _, f := range pc.Merge {
+			conf.Merge[f] = true
+		}
+	}
 	t0 := time.Now()
 	pool, err := w.NewPool(conf, sp, *workers)
 	if err != nil {
@@ -104,6 +120,25 @@ func cmdRun(args []string) int {
 		}
 	} else {
 		fmt.Printf("  (%d init notes)\n", len(pool.Ms[0].InitNotes))
+	}
+	if *concrete != "" {
+		vals := map[string]uint64{}
+		for _, kv := range strings.Split(*concrete, ",") {
+			if i := strings.LastIndex(kv, "="); i > 0 {
+				v, _ := strconv.ParseUint(kv[i+1:], 10, 64)
+				vals[kv[:i]] = v
+			}
+		}
+		for _, h := range hs {
+			c := conf
+			c.Concrete, c.ConcreteSet = vals, true
+			m := pool.Ms[0]
+			m.Conf = c
+			pr := m.RunPath(h, nil)
+			kind, detail := pr.Outcome()
+			fmt.Printf("== %s concrete: outcome=%s %s\n   observes=%v\n   reached=%v choices=%v notes=%v\n", h.Name(), kind, detail, pr.Observes, pr.Reached, pr.Choices, pr.Notes)
+		}
+		return 0
 	}
 	for _, h := range hs {
 		r := pool.Explore(h, conf)
@@ -140,4 +175,3 @@ func printResult(r *sx.HarnessResult, verbose bool) {
 		}
 	}
 }
-
